@@ -154,3 +154,6 @@ func (d *CLI) Lines() []string {
 
 	return l
 }
+
+// LineClean reports whether the device's input line buffer is empty (no partial command).
+func (d *CLI) LineClean() bool { return len(d.line) == 0 }
